@@ -74,7 +74,7 @@ def binary_search_lightness(
 
             # Track best valid candidate
             if contrast >= target_contrast:
-                if delta_e < best_delta_e:
+                if delta_e < best_delta_e or best_contrast < target_contrast:
                     best_rgb = candidate_rgb
                     best_delta_e = delta_e
                     best_contrast = contrast
